@@ -177,8 +177,6 @@ def after_earlier_calls(L0, L, m):
     deinterleave(a)
     flip_msb(a)
     swap_multiples(a, m)
-    m0 = sym_int("m0", 0, 255)
-    forked(swap_multiples, a, m0)
     x = sym_bytes("x", L)
     y = bytearray(x)
     interleave(y)
